@@ -36,8 +36,8 @@ check(
 check(
     "C06",
     "runtime monitoring: exhaustive sweep of the live table - factors observed through the real conversion functions (both directions) and through Scalar arithmetic, judged by a unit-symbol grammar oracle with written-precision tolerance",
-    "Exhaustive over the 1548 rows of the shipped table: ~930 decomposable rows compared (single-slash grammar plus multi-slash symbols read left to right with registered compound pieces; both conversion directions + dynamic composition with barril's own arithmetic), 141 SI-prefixed atomic rows; 34 inconsistent rows are listed as known findings keyed by row and wrong ratio.",
-    "Tolerance = 16 x the precision the row is written in (calibrated: empty gap between ratio 15 and 647 on the pinned table; large integer literals keep their trailing zeros as digits) with a float-noise floor of 1e-9; rows with offsets, symbols the grammar cannot read and ambiguous F/C factors are skipped, never alarmed on.",
+    "Exhaustive over the 1548 rows of the shipped table: ~930 decomposable rows compared (single-slash grammar plus multi-slash symbols read left to right with registered compound pieces; both conversion directions + dynamic composition with barril's own arithmetic), 141 SI-prefixed atomic rows; 57 rows with a temperature among their parts are compared as intervals (slopes) and every compound row must map zero to zero; 38 inconsistent rows are listed as known findings keyed by row and wrong ratio.",
+    "Tolerance = 16 x the precision the row is written in (calibrated: empty gap between ratio 15 and 647 on the pinned table; large integer literals keep their trailing zeros as digits) with a float-noise floor of 1e-9; single units with a zero point of their own, symbols the grammar cannot read and ambiguous F/C factors are skipped, never alarmed on; rows with a temperature among their parts are judged through the table only (not through Scalar arithmetic, where degC is a temperature, not an interval).",
     "4/C06",
 )
 check(
